@@ -736,7 +736,7 @@ def run(ctx):
     n = ctx.pick(2, 2)
     m = ctx.pick(1, 2)
     singles = single_cases(ctx.tier)
-    inj_max = ctx.pick(2, 3)
+    inj_max = 2
     sp = sched_specs(n, m, inj_max)
     if n != m:
         sp += [(ss, sc, cfg) for sc, ss, cfg in sched_specs(n, m, inj_max) if len(ss) < len(sc)]
